@@ -2,7 +2,7 @@
 //! StaticRobustUniqueIndexSet (the index set under dynamic_config's node Container) under the baton scheduler of
 //! harness/g1/sched with the programs that correspond to "last user leaves || late opener registers" and prints, per
 //! explored schedule, what every operation returned.
-//!   usage: c06g1 exh <bound> <maxexecs>
+//!   usage: c06g1 exh <bound> <maxexecs> [<program> ...]   (default: the three programs below)
 //!          c06g1 one <cap> <program> <schedule>      program e.g. "acq,lrel|acq", schedule "0,0,1,..."
 //!   output: X cap=<c> prog=<p> sched=<choices> r=<per thread: results in program order>
 //!           results: ok<i> (acquire -> Ok(i)) | locked (IsLocked) | full (OutOfIndices) | L (release -> Locked)
@@ -75,7 +75,10 @@ fn main() {
         "exh" => {
             let bound: usize = a[2].parse().unwrap();
             let maxexecs: usize = a[3].parse().unwrap();
-            for prog in ["acq,lrel|acq", "acq,lrel|acq,lrel", "acq,lrel|acq|acq"] {
+            let given: Vec<String> = a.iter().skip(4).cloned().collect();
+            let default = vec!["acq,lrel|acq".to_string(), "acq,lrel|acq,lrel".to_string(), "acq,lrel|acq|acq".to_string()];
+            let list = if given.is_empty() { default } else { given };
+            for prog in list.iter().map(|s| s.as_str()) {
                 for cap in 1..=2usize {
                     if prog.matches('|').count() + 1 > cap + 1 { continue; }
                     let p = parse(prog);
